@@ -1722,12 +1722,17 @@ def correspond(ctx, res):
         nh = ctx.n(600, 12000)
         for i in range(nh):
             hists.append(gen_call_history(ctx.rng, impl, CALL_FAMILIES[i % len(CALL_FAMILIES)]))
-        hists.extend(nbn_histories(ctx.rng, impl.tck))
         n_sampled = len(hists)
         hists.extend(exhaustive_delta_histories(impl.tck))
         res.exhaustive += ("; all %d combinations of delta ∈ {-5,0,1,30,100} ticks on user/idle/iowait/steal × both "
                            "functions (blocking form)" % ((len(hists) - n_sampled) // 2))
         hists.sort(key=lambda h: h["vlen"])
+        # non-blocking / blocking / non-blocking on one thread, all four (function, percpu) variants, with and without a
+        # first call, interval None and 0.0: run FIRST so that a blocking branch that forgets its post-sleep sample is
+        # reported on the shortest history that shows it (seeded C07-3)
+        nbn = nbn_histories(ctx.rng, impl.tck)
+        n_sampled += len(nbn)
+        hists = nbn + hists
         CH = 400
         for a in range(0, len(hists), CH):
             chunk = hists[a:a + CH]
